@@ -1,6 +1,8 @@
 import GopatchModel.FileM
 import GopatchModel.Spec.Assoc
 import GopatchModel.Spec.DotsKeys
+import GopatchModel.Spec.SplitSpec
+import GopatchModel.Spec.RewriteSpec
 namespace Gopatch.C04
 open Gopatch
 
@@ -301,5 +303,45 @@ def greedy (m : Nat → Nat → Bool) : List (List Nat) → List Nat → Bool
 said "no match" although the run `x, y` is a solution. -/
 theorem greedy_incomplete :
     greedy (fun p g => p == g) [[1]] [1, 2, 1] = false ∧ [1, 2] ++ [1] = [1, 2, 1] := by decide
+
+/-! ### where an elision is recorded to stand: from the bytes of the patch (front end) -/
+
+/-- **An elision on a context line has one place.** The premise of `context_line_elision_associated` from the text of
+the patch: a body line that starts with neither '-' nor '+' goes to both versions of the change, and each of its bytes -
+the first dot of an elision written on it - is reported at the same line and column of the patch file in the '-' version
+and in the '+' version, whatever '-' and '+' lines stand in front of it. -/
+theorem context_line_elision_has_one_place (content : Sec.Bytes) (a b : List Sec.Line) (l : Sec.Line) (k : Nat)
+    (hctx : ∀ c rest, l.text = c :: rest → c ≠ Sec.minusB ∧ c ≠ Sec.plusB) (hk : k ≤ l.text.length) :
+    (Sec.splitPatch (a ++ l :: b)).1.positionIn content (Sec.size (a.filterMap (Sec.sideLine true)) + k) =
+      (Sec.splitPatch (a ++ l :: b)).2.positionIn content (Sec.size (a.filterMap (Sec.sideLine false)) + k) :=
+  Sec.context_line_stands_at_one_place content a b l k (Sec.sideLine_context true l hctx) (Sec.sideLine_context false l hctx) hk
+
+/-- **An elision is recorded where its "..." stands in the version**: `rewrite` may put a package clause and a function
+header in front and replaces every "..." by a name of the same length; the adjustments it returns take the offset of the
+`i`-th augmentation, an elision, in the augmented source back to the offset of its "..." (hypothesis `AugsOK`: the
+augmentations come in order, inside the source, elisions three bytes long - evaluated by the driver on the finder's
+output for every version of every generated patch). -/
+theorem elision_recorded_where_its_dots_stand (src : List UInt8) (augs : List Fnd.Aug)
+    (hok : Fnd.AugsOK src 0 (Fnd.sortByStart augs)) (i s e : Nat) (n : Bool)
+    (h : (Fnd.sortByStart augs)[i]? = some (.dots s e n)) :
+    ∃ s' e', (Fnd.rewrite src augs).2.1[i]? = some (.dots s' e' n) ∧ Fnd.adjust (Fnd.rewrite src augs).2.2 s' = s :=
+  Fnd.rewrite_elision_maps_back src augs hok i s e n h
+
+/-- **... and that place is reported in the user's coordinates**: for any patch file, any change found in it and either
+version of its body, byte `k` of the text contributed by a body line is reported at the line and column which that byte
+has in the patch file. -/
+theorem version_offsets_are_patch_file_places (u : Sec.Uni) (content : Sec.Bytes) (c : Sec.Change)
+    (hc : c ∈ (Sec.split u content).1) (m : Bool) (a b : List Sec.Line) (l l' : Sec.Line)
+    (hbody : c.patch = a ++ l :: b) (hl : Sec.sideLine m l = some l') (k : Nat) (hk : k ≤ l'.text.length) :
+    (Sec.build (a.filterMap (Sec.sideLine m) ++ l' :: b.filterMap (Sec.sideLine m))).positionIn content
+        (Sec.size (a.filterMap (Sec.sideLine m)) + k) = Sec.position content (l'.off + k) :=
+  Sec.version_byte_reported_where_it_stands u content c hc m a b l l' hbody hl k hk
+
+/-- non-vacuity: the body `-foo(...)`, ` ...`, `+bar(...)`: the context line is line 2 of the patch in both versions -/
+example :
+    let content : Sec.Bytes := "-foo(...)\n ...\n+bar(...)\n".toUTF8.toList
+    let body := Sec.rawLines content
+    ((Sec.splitPatch body).1.positionIn content (9 + 1), (Sec.splitPatch body).2.positionIn content (0 + 1)) = ((2, 2), (2, 2)) := by
+  decide +kernel
 
 end Gopatch.C04
